@@ -215,6 +215,11 @@ def run_unit(unit, repo, outdir, seed=0, features=None, canary=True, rlimit=None
     r = verus_run(path, seed=seed, rlimit=rlimit)
     res["cmds"].append(r["cmd"])
     v, u, _ = classify(A, r, path)
+    if u and not v and all(x.startswith("rlimit") for x in u):
+        # resource limit only: one retry with a larger limit (an obligation proved with more resources is proved)
+        r = verus_run(path, seed=seed, rlimit=(rlimit or 10) * 8)
+        res["cmds"].append(r["cmd"])
+        v, u, _ = classify(A, r, path)
     fb = fn_breakdown(r["json"])
     res["ms"] += sum(f["ms"] for f in fb.values())
     if r["json"] is None and not u and not v:
@@ -259,6 +264,12 @@ def run_unit(unit, repo, outdir, seed=0, features=None, canary=True, rlimit=None
             rc = verus_run(cpath, seed=seed, multiple=max(24, len(expected) + 8), rlimit=rlimit)
             res["cmds"].append(rc["cmd"])
             _, cu, failed = classify(Ac, rc, cpath)
+            if cu and all(x.startswith("rlimit") for x in cu):
+                # the solver gave up on a function of the canary variant (a failing assertion costs more than a proof):
+                # one retry with a larger resource limit; more resources never turn a refutable canary into a proved one
+                rc = verus_run(cpath, seed=seed, multiple=max(24, len(expected) + 8), rlimit=(rlimit or 10) * 8)
+                res["cmds"].append(rc["cmd"])
+                _, cu, failed = classify(Ac, rc, cpath)
             res["canaries"]["expected"] = len(expected)
             res["canaries"]["failed_as_expected"] = len([e for e in expected if e in failed])
             vac = [e for e in expected if e not in failed]
